@@ -5,7 +5,8 @@
  *
  *   M <pattern> <required> <form s|d>                       | <granted 0|1>
  *       one-entry user, FilterUtility::HasPermission(user, required)        (glob semantics)
- *   C <inventory>                                           inventory = T:name:mask[:ce[:cp]],... (T = H|S) or -
+ *   C <inventory>                                           inventory = T:name:mask[:ce[:cp]],... (T = H|S|E|T: host, service,
+ *       endpoint, time period; objects of different types may share a name) or -
  *       start of a case: exactly these objects are registered, in this order; vars.b0..b3 = bits of mask, vars.n = mask;
  *       ce = command_endpoint (e1|e2|-), cp = check_period (tp1|tp2|-): nullable navigation fields (joins)
  *   P <pattern> <filter|-> <form s|d>                       | <truth table over the inventory (e = raises) | ->
@@ -21,8 +22,9 @@
  *
  *   H <q|m> <Host|Service> [n=name] [p=a,b] [f=<filter>] [j]  | <http status> <T/name,..|-> cnt=<results> jn=<names|-> ft=.. fast=..
  *       a whole request through the production dispatcher HttpHandler::ProcessRequest:
- *       q = GET /v1/objects/<plural>[/name] (ObjectQueryHandler, attrs=[name]; j adds joins=[host.name] and jn lists the
- *       returned services - among those whose host is in the inventory - for which the joined host was included),
+ *       q = GET /v1/objects/<plural>[/name] (ObjectQueryHandler, attrs=[name]; j adds joins=[command_endpoint.name,
+ *       check_period.name(, host.name)] and jn lists <object>><field> for every joined object that was serialized, among
+ *       those that are inventory objects),
  *       m = POST /v1/objects/<plural>[/name] with attrs={} (ModifyObjectHandler).  Plural names travel as URL parameters,
  *       filter and filter_vars in the JSON body.
  *
@@ -32,6 +34,13 @@
  *   G <templates|variables|types|status|console>             | <http status> <number of results>
  *       handlers whose targets are not config objects (permission strings templates/query/Host, variables, types,
  *       status/query, console)
+ *
+ *   K <users>                                               users = name:<password hex|->:<client_cn hex|->,... or -
+ *       registers exactly these ApiUser objects (authentication inventory; names are unique, passwords and CNs need not be)
+ *   B <Authorization header, hex|->                        | <user name|none|throw> dec=<hex|throw|->
+ *       ApiUser::GetByAuthHeader(header); dec = what Base64::Decode makes of the text after the first blank (oracle: OpenSSL)
+ *   N <client CN, hex|->                                   | <user name|none>
+ *       ApiUser::GetByClientCN(cn)
  *
  * Filter syntax (prefix, no blanks; V = o|h|s for obj/host/service):
  *   T F | v<K><V> (V.vars.b<K>) | c<K><V> (V.vars.n == K) | n<V>=<name>; (V.name == "name") | q<V>=<name>; ("name" == V.name)
@@ -52,6 +61,7 @@
 #include "base/scriptframe.hpp"
 #include "base/namespace.hpp"
 #include "base/exception.hpp"
+#include "base/base64.hpp"
 #include "base/io-engine.hpp"
 #include "base/tlsstream.hpp"
 #include "remote/httphandler.hpp"
@@ -95,7 +105,9 @@ static std::vector<std::string> Words(const std::string& s)
 /* ------------------------------------------------------------------------------------------ inventory */
 
 struct Item {
-	bool host;
+	std::string type;      /* Host, Service, Endpoint, TimePeriod */
+	bool host;             /* type == "Host" */
+	bool checkable;        /* Host or Service */
 	std::string name;      /* full name */
 	int mask;
 	std::string ce, cp;    /* command_endpoint / check_period, empty = null join */
@@ -104,6 +116,8 @@ struct Item {
 
 static std::map<std::string, Host::Ptr> l_Hosts;
 static std::map<std::string, Service::Ptr> l_Services;
+static std::map<std::string, Endpoint::Ptr> l_Endpoints;
+static std::map<std::string, TimePeriod::Ptr> l_Periods;
 static std::map<ConfigObject *, int> l_Mask;
 static std::vector<Item> l_Inv;
 static std::vector<ConfigObject::Ptr> l_Registered;
@@ -169,6 +183,27 @@ static Service::Ptr GetService(const std::string& full)
 	return s;
 }
 
+static Endpoint::Ptr GetEndpointObj(const std::string& name)
+{
+	auto it = l_Endpoints.find(name);
+	if (it != l_Endpoints.end()) return it->second;
+	Endpoint::Ptr e = new Endpoint();
+	e->SetName(name);
+	l_Endpoints[name] = e;
+	return e;
+}
+
+static TimePeriod::Ptr GetPeriodObj(const std::string& name)
+{
+	auto it = l_Periods.find(name);
+	if (it != l_Periods.end()) return it->second;
+	TimePeriod::Ptr t = new TimePeriod();
+	t->SetName(name);
+	SetMask(t, 0);
+	l_Periods[name] = t;
+	return t;
+}
+
 static bool SetInventory(const std::string& spec)
 {
 	for (auto& o : l_Registered) o->Unregister();
@@ -176,25 +211,31 @@ static bool SetInventory(const std::string& spec)
 	l_Inv.clear();
 	for (auto& kv : l_Hosts) { SetMask(kv.second, 0); SetJoins(kv.second, "", ""); }
 	for (auto& kv : l_Services) { SetMask(kv.second, 0); SetJoins(kv.second, "", ""); }
+	for (auto& kv : l_Periods) SetMask(kv.second, 0);
 	if (spec == "-") return true;
 	std::set<std::string> seen;
 	for (auto& part : Split(spec, ',')) {
 		auto f = Split(part, ':');
-		if (f.size() < 3 || f.size() > 5 || (f[0] != "H" && f[0] != "S") || f[1].empty()) return false;
+		if (f.size() < 3 || f.size() > 5 || f[1].empty()) return false;
+		if (f[0] != "H" && f[0] != "S" && f[0] != "E" && f[0] != "T") return false;
 		if (!seen.insert(f[0] + ":" + f[1]).second) return false;
 		Item it;
+		it.type = f[0] == "H" ? "Host" : f[0] == "S" ? "Service" : f[0] == "E" ? "Endpoint" : "TimePeriod";
 		it.host = f[0] == "H";
+		it.checkable = f[0] == "H" || f[0] == "S";
 		it.name = f[1];
 		it.mask = atoi(f[2].c_str()) & 15;
-		it.obj = it.host ? ConfigObject::Ptr(GetHost(it.name)) : ConfigObject::Ptr(GetService(it.name));
+		if (!it.checkable && (it.name == "e1" || it.name == "e2" || it.name == "tp1" || it.name == "tp2")) return false; /* always registered */
+		if (f[0] == "H") it.obj = GetHost(it.name);
+		else if (f[0] == "S") it.obj = GetService(it.name);
+		else if (f[0] == "E") it.obj = GetEndpointObj(it.name);
+		else it.obj = GetPeriodObj(it.name);
 		it.obj->Register();
 		l_Registered.push_back(it.obj);
-		SetMask(it.obj, it.mask);
-		it.ce = f.size() > 3 && f[3] != "-" ? f[3] : "";
-		it.cp = f.size() > 4 && f[4] != "-" ? f[4] : "";
-		if (!it.ce.empty() && it.ce != "e1" && it.ce != "e2") return false;
-		if (!it.cp.empty() && it.cp != "tp1" && it.cp != "tp2") return false;
-		SetJoins(it.obj, it.ce, it.cp);
+		if (f[0] == "E") it.mask = 0; else SetMask(it.obj, it.mask);
+		it.ce = it.checkable && f.size() > 3 && f[3] != "-" ? f[3] : "";
+		it.cp = it.checkable && f.size() > 4 && f[4] != "-" ? f[4] : "";
+		if (it.checkable) SetJoins(it.obj, it.ce, it.cp);
 		l_Inv.push_back(it);
 	}
 	return true;
@@ -316,7 +357,8 @@ static bool UsesVar(const F& f, char v)
 static int Eval(const F& f, const Item& it, const Item *svc = nullptr)
 {
 	auto resolve = [&](char v, ConfigObject *& o, bool& isHost) -> bool {
-		if (v == 'o') { o = it.obj.get(); isHost = it.host; return true; }
+		if (v == 'o') { o = it.obj.get(); isHost = it.host || !it.checkable; return true; }
+		if (!it.checkable) return false;   /* an endpoint or time period binds neither `host` nor `service` */
 		if (v == 'h') {
 			if (it.host) { o = it.obj.get(); isHost = true; return true; }
 			o = static_cast<Service *>(it.obj.get())->GetHost().get(); isHost = true; return o != nullptr;
@@ -335,11 +377,14 @@ static int Eval(const F& f, const Item& it, const Item *svc = nullptr)
 	case 'T': return 1;
 	case 'F': return 0;
 	case 'E': return -1;
-	case 'v': if (!resolve(f.v, o, isHost)) return -1; return f.k < 4 ? (l_Mask[o] >> f.k & 1) : 0;
-	case 'c': if (!resolve(f.v, o, isHost)) return -1; return l_Mask[o] == f.k;
+	case 'v': if (!resolve(f.v, o, isHost) || (o == it.obj.get() && it.type == "Endpoint")) return -1; return f.k < 4 ? (l_Mask[o] >> f.k & 1) : 0;
+	case 'c': if (!resolve(f.v, o, isHost) || (o == it.obj.get() && it.type == "Endpoint")) return -1; return l_Mask[o] == f.k;
 	case 'n': case 'q': case 'x': if (!resolve(f.v, o, isHost)) return -1; return nameOf(o, isHost) == f.s;
 	case 'm': if (!resolve(f.v, o, isHost)) return -1; return Utility::Match(f.s, nameOf(o, isHost)) ? 1 : 0;
-	case 'j': return (f.v == 'e' ? it.ce : it.cp) == f.s && !f.s.empty();
+	case 'j':
+		if (!it.checkable) return -1;   /* no such name in the frame of an endpoint or time period */
+		if (f.v == 'e') return it.ce == f.s && Endpoint::GetByName(String(f.s)) != nullptr;
+		return it.cp == f.s && TimePeriod::GetByName(String(f.s)) != nullptr;
 	case '!': { int a = Eval(*f.a, it, svc); return a < 0 ? -1 : !a; }
 	case '&': { int a = Eval(*f.a, it, svc); if (a <= 0) return a; return Eval(*f.b, it, svc); }
 	case '|': { int a = Eval(*f.a, it, svc); if (a != 0) return a; return Eval(*f.b, it, svc); }
@@ -354,7 +399,7 @@ static std::string Truth(const F& f, const char *onlyType = nullptr)
 	if (l_Inv.empty()) return "-";
 	std::string t;
 	for (auto& it : l_Inv) {
-		if (onlyType && std::string(onlyType) != (it.host ? "Host" : "Service")) { t += '0'; continue; }
+		if (onlyType && std::string(onlyType) != it.type) { t += '0'; continue; }
 		int r = Eval(f, it);
 		t += r < 0 ? 'e' : r > 0 ? '1' : '0';
 	}
@@ -370,7 +415,7 @@ static std::string PermTruth(const F& f)
 	std::string t = Truth(f);
 	if (!UsesVar(f, 's')) return t;
 	for (auto& s : l_Inv) {
-		if (s.host) continue;
+		if (s.type != "Service") continue;
 		t += '/';
 		for (auto& it : l_Inv) {
 			int r = it.host ? Eval(f, it, &s) : Eval(f, it);
@@ -609,7 +654,7 @@ static bool DoA(const std::vector<std::string>& w)
 	bool g = FilterUtility::HasPermission(l_User, Dec(w[1]), &pf);
 	std::string bits;
 	for (auto& it : l_Inv) {
-		if (!types.count(it.host ? "Host" : "Service")) { bits += 'x'; continue; }
+		if (!types.count(it.type)) { bits += 'x'; continue; }
 		if (!g) { bits += '0'; continue; }
 		ScriptFrame frame(false, new Namespace());
 		bool ok;
@@ -722,7 +767,12 @@ static bool DoH(const std::vector<std::string>& w)
 	if (verb == "m") body->Set("attrs", new Dictionary());
 	else if (verb == "q") {
 		body->Set("attrs", new Array({ String("name") }));
-		if (joins && svc) body->Set("joins", new Array({ String("host.name") }));
+		if (joins) {
+			/* joined objects are an access path of their own: each is subject to objects/query/<its type> */
+			ArrayData ja{ String("command_endpoint.name"), String("check_period.name") };
+			if (svc) ja.emplace_back(String("host.name"));
+			body->Set("joins", new Array(std::move(ja)));
+		}
 	}
 	http::verb hv = verb == "q" ? http::verb::get : verb == "d" ? http::verb::delete_ : http::verb::post;
 	http::request<http::string_body> req{hv, target + qs, 11};
@@ -730,6 +780,7 @@ static bool DoH(const std::vector<std::string>& w)
 	const double kSentinel = 1000.0;
 	if (action)
 		for (auto& it : l_Inv) {
+			if (!it.checkable) continue;
 			Checkable::Ptr c = static_pointer_cast<Checkable>(it.obj);
 			c->SetNextCheck(kSentinel);
 			c->SetAcknowledgementRaw(AcknowledgementNormal);
@@ -759,20 +810,29 @@ static bool DoH(const std::vector<std::string>& w)
 				names.push_back(ty + "/" + nm);
 				count++;
 				Dictionary::Ptr j = one->Get("joins");
-				bool hostKnown = false;
-				auto pos = nm.find('!');
-				if (svc && pos != std::string::npos)
-					for (auto& it : l_Inv) if (it.host && it.name == nm.substr(0, pos)) hostKnown = true;
-				if (j && j->Contains("host") && hostKnown) joined.push_back(nm);
+				/* which joined objects were serialized? (only those that are inventory objects are reported) */
+				if (j) {
+					const Item *self = nullptr;
+					for (auto& it : l_Inv) if (it.type == ty && it.name == nm) self = &it;
+					auto inInv = [&](const std::string& t, const std::string& n) {
+						for (auto& it : l_Inv) if (it.type == t && it.name == n) return true;
+						return false;
+					};
+					auto pos = nm.find('!');
+					if (svc && pos != std::string::npos && j->Contains("host") && inInv("Host", nm.substr(0, pos))) joined.push_back(nm + ">host");
+					if (self && j->Contains("command_endpoint") && inInv("Endpoint", self->ce)) joined.push_back(nm + ">command_endpoint");
+					if (self && j->Contains("check_period") && inInv("TimePeriod", self->cp)) joined.push_back(nm + ">check_period");
+				}
 			}
 		} catch (const std::exception&) { status = 598; }
 	}
 	if (action)
 		for (auto& it : l_Inv) {
 			/* which objects did the action act on? reschedule-check moves next_check, remove-acknowledgement clears the mark */
+			if (!it.checkable) continue;
 			Checkable::Ptr c = static_pointer_cast<Checkable>(it.obj);
 			bool acted = verb == "a:reschedule-check" ? c->GetNextCheck() != kSentinel : c->GetAcknowledgementRaw() == AcknowledgementNone;
-			if (acted) names.push_back(std::string(it.host ? "Host/" : "Service/") + it.name);
+			if (acted) names.push_back(it.type + "/" + it.name);
 		}
 	std::sort(names.begin(), names.end());
 	std::sort(joined.begin(), joined.end());
@@ -815,6 +875,84 @@ static bool DoG(const std::vector<std::string>& w)
 	return true;
 }
 
+/* ------------------------------------------------------------------------------------------ authentication */
+
+static std::string Hex(const std::string& s)
+{
+	if (s.empty()) return "-";
+	static const char *d = "0123456789abcdef";
+	std::string o;
+	for (unsigned char c : s) { o += d[c >> 4]; o += d[c & 15]; }
+	return o;
+}
+
+static bool UnHex(const std::string& h, std::string& out)
+{
+	out.clear();
+	if (h == "-") return true;
+	if (h.size() % 2) return false;
+	for (size_t i = 0; i < h.size(); i += 2) {
+		auto v = [](char c) { return c >= '0' && c <= '9' ? c - '0' : c >= 'a' && c <= 'f' ? c - 'a' + 10 : -1; };
+		int a = v(h[i]), b = v(h[i + 1]);
+		if (a < 0 || b < 0) return false;
+		out += (char)(a * 16 + b);
+	}
+	return true;
+}
+
+static std::vector<ApiUser::Ptr> l_AuthUsers;
+
+static bool DoK(const std::vector<std::string>& w)
+{
+	if (w.size() < 2) return false;
+	for (auto& u : l_AuthUsers) u->Unregister();
+	l_AuthUsers.clear();
+	if (w[1] != "-") {
+		std::set<std::string> seen;
+		for (auto& part : Split(w[1], ',')) {
+			auto f = Split(part, ':');
+			std::string pw, cn;
+			if (f.size() != 3 || f[0].empty() || !UnHex(f[1], pw) || !UnHex(f[2], cn) || !seen.insert(f[0]).second) return false;
+			ApiUser::Ptr u = new ApiUser();
+			u->SetName(f[0]);
+			u->SetPassword(String(pw));
+			u->SetClientCN(String(cn));
+			u->Register();
+			l_AuthUsers.push_back(u);
+		}
+	}
+	printf("K %s\n", w[1].c_str());
+	return true;
+}
+
+static bool DoB(const std::vector<std::string>& w)
+{
+	std::string header;
+	if (w.size() < 2 || !UnHex(w[1], header)) return false;
+	std::string dec = "-";
+	auto pos = header.find(' ');
+	if (pos != std::string::npos && header.substr(0, pos) == "Basic") {
+		try { dec = Hex(std::string(Base64::Decode(String(header.substr(pos + 1))).GetData())); if (dec == "-") dec = "="; }
+		catch (const std::exception&) { dec = "throw"; }
+	}
+	std::string res;
+	try {
+		ApiUser::Ptr u = ApiUser::GetByAuthHeader(String(header));
+		res = u ? std::string(u->GetName().GetData()) : "none";
+	} catch (const std::exception&) { res = "throw"; }
+	printf("B %s | %s dec=%s\n", w[1].c_str(), res.c_str(), dec.c_str());
+	return true;
+}
+
+static bool DoN(const std::vector<std::string>& w)
+{
+	std::string cn;
+	if (w.size() < 2 || !UnHex(w[1], cn)) return false;
+	ApiUser::Ptr u = ApiUser::GetByClientCN(String(cn));
+	printf("N %s | %s\n", w[1].c_str(), u ? u->GetName().CStr() : "none");
+	return true;
+}
+
 static bool DoLine(const std::string& line)
 {
 	std::string pre = line.substr(0, line.find(" | "));
@@ -833,6 +971,9 @@ static bool DoLine(const std::string& line)
 	if (w[0] == "A") return DoA(w);
 	if (w[0] == "H") return DoH(w);
 	if (w[0] == "G") return DoG(w);
+	if (w[0] == "K") return DoK(w);
+	if (w[0] == "B") return DoB(w);
+	if (w[0] == "N") return DoN(w);
 	if (w[0][0] == '#') return true;
 	return false;
 }
@@ -942,7 +1083,7 @@ static std::string PickName(Rng& r, bool host)
 {
 	/* mostly a registered object, sometimes an unregistered or odd name */
 	std::vector<std::string> have;
-	for (auto& it : l_Inv) if (it.host == host) have.push_back(it.name);
+	for (auto& it : l_Inv) if (it.checkable && it.host == host) have.push_back(it.name);
 	uint64_t k = r.below(10);
 	if (!have.empty() && k < 7) return have[r.below(have.size())];
 	if (k == 7) return "%e";
@@ -1054,7 +1195,7 @@ static void GenCase(Rng& r)
 	if (actions) {
 		std::vector<std::string> svcs;
 		bool anyHost = false;
-		for (auto& it : l_Inv) { if (it.host) anyHost = true; else svcs.push_back(it.name); }
+		for (auto& it : l_Inv) { if (it.host) anyHost = true; else if (it.checkable) svcs.push_back(it.name); }
 		if (!svcs.empty() && anyHost && r.below(3) != 0) {
 			std::string f = r.coin() ? "T" : GenFilter(r, 1, false, false);
 			std::string one = svcs[r.below(svcs.size())];
@@ -1076,7 +1217,7 @@ static void GenCase(Rng& r)
 	/* one request visiting several objects, in every order: plural name lists in all permutations */
 	for (int host = 0; host < 2; host++) {
 		std::vector<std::string> have;
-		for (auto& it : l_Inv) if (it.host == (host == 1)) have.push_back(it.name);
+		for (auto& it : l_Inv) if (it.checkable && it.host == (host == 1)) have.push_back(it.name);
 		bool typeOk = actions || (host == 1) == !svcPerm;
 		if (have.size() < 2 || !typeOk || r.below(3) == 0) continue;
 		for (size_t i = have.size(); i > 1; i--) std::swap(have[i - 1], have[r.below(i)]);
@@ -1127,6 +1268,100 @@ static void GenCase(Rng& r)
 	}
 	Run("A " + Enc(req) + " Host,Service");
 	if (r.coin()) Run("A " + Enc(FlipCase(r, kRequired[r.below(kRequiredN)])) + " Host,Service");
+}
+
+/* Joined objects as an access path: objects of different types share names, the user has per-type permissions */
+static void GenJoinCase(Rng& r)
+{
+	static const char *names[] = { "h0", "h1", "web" };
+	std::vector<std::string> items, eps, tps;
+	for (auto n : names) if (r.below(3) != 0) { items.push_back(std::string("E:") + n + ":0"); eps.push_back(n); }
+	for (auto n : names) if (r.below(3) != 0) { items.push_back(std::string("T:") + n + ":" + std::to_string(r.below(16))); tps.push_back(n); }
+	auto pickJoin = [&](std::vector<std::string>& pool, const char *global) {
+		uint64_t k = r.below(8);
+		if (!pool.empty() && k < 5) return pool[r.below(pool.size())];
+		if (k == 5) return std::string(global);   /* registered, but not an inventory object */
+		return std::string("-");
+	};
+	std::vector<std::string> hosts;
+	for (auto n : names) if (r.below(3) != 0) {
+		hosts.push_back(n);
+		items.push_back(std::string("H:") + n + ":" + std::to_string(r.below(16)) + ":" + pickJoin(eps, "e1") + ":" + pickJoin(tps, "tp1"));
+	}
+	for (auto n : names)
+		for (int j = 0; j < 2; j++)
+			if (r.below(3) == 0)
+				items.push_back(std::string("S:") + n + "!" + kSvcShort[j] + ":" + std::to_string(r.below(16)) + ":" + pickJoin(eps, "e2") + ":" + pickJoin(tps, "tp2"));
+	for (size_t i = items.size(); i > 1; i--) std::swap(items[i - 1], items[r.below(i)]);
+	std::string inv;
+	for (auto& it : items) inv += (inv.empty() ? "" : ",") + it;
+	Run("C " + (inv.empty() ? std::string("-") : inv));
+
+	static const char *perms[] = { "objects/query/Service", "objects/query/Host", "objects/query/Endpoint", "objects/query/TimePeriod" };
+	int np = 2 + (int)r.below(4);
+	for (int i = 0; i < np; i++) {
+		std::string pat = r.below(6) == 0 ? std::string("objects/query/*") : GenPattern(r, perms[r.below(4)]);
+		std::string f = "-";
+		if (r.below(5) < 3) {
+			if (r.below(3) == 0) f = std::string(r.coin() ? "no=" : "!no=") + names[r.below(3)] + ";";
+			else f = GenFilter(r, 1, true, false);
+		}
+		Run("P " + Enc(pat) + " " + f + " " + (r.coin() ? "s" : "d"));
+	}
+	if (l_HttpOk) {
+		int n = 2 + (int)r.below(3);
+		for (int i = 0; i < n; i++) {
+			bool svc = r.below(3) != 0;
+			std::string h = std::string("H q ") + (svc ? "Service" : "Host");
+			uint64_t k = r.below(6);
+			if (k == 0) { std::string nm = PickName(r, !svc); h += " n=" + (nm == "%e" ? std::string("nope") : nm); }
+			else if (k == 1) h += " f=" + GenFilter(r, 1, false, svc);
+			Run(h + " j");
+		}
+	}
+	for (auto p : perms) Run(std::string("A ") + p + " Host,Service,Endpoint,TimePeriod");
+}
+
+/* ApiUser::GetByAuthHeader / GetByClientCN over generated user inventories and headers */
+static void GenAuthCase(Rng& r)
+{
+	static const char *names[] = { "root", "icingaweb2", "agent", "api" };
+	static const char *pws[] = { "", "", "pw", "secret", "a:b", "x", "pw" };
+	static const char *cns[] = { "", "", "", "cn1", "agent.example", "cn1" };
+	struct U { std::string name, pw, cn; };
+	std::vector<U> us;
+	std::string spec;
+	for (auto n : names)
+		if (r.below(3) != 0) {
+			U u{ n, pws[r.below(7)], cns[r.below(6)] };
+			us.push_back(u);
+			spec += (spec.empty() ? "" : ",") + u.name + ":" + Hex(u.pw) + ":" + Hex(u.cn);
+		}
+	Run("K " + (spec.empty() ? std::string("-") : spec));
+	auto basic = [&](const std::string& cred) { return std::string("Basic ") + Base64::Encode(String(cred)).GetData(); };
+	std::vector<std::string> hs;
+	std::vector<U> all = us;
+	all.push_back(U{ "nobody", "pw", "" });
+	all.push_back(U{ "", "pw", "" });
+	for (auto& u : all) {
+		hs.push_back(basic(u.name + ":" + u.pw));                       /* the configured password (possibly empty) */
+		hs.push_back(basic(u.name + ":"));                              /* empty password given */
+		hs.push_back(basic(u.name + ":" + u.pw + "x"));                 /* longer */
+		if (!u.pw.empty()) hs.push_back(basic(u.name + ":" + u.pw.substr(0, u.pw.size() - 1))); /* prefix */
+		hs.push_back(basic(u.name + ":wrong"));
+		hs.push_back(basic(u.name));                                     /* no colon */
+		hs.push_back(basic(u.name + ":" + u.pw + ":"));
+		if (r.coin()) hs.push_back("basic " + std::string(Base64::Encode(String(u.name + ":" + u.pw)).GetData()));
+		if (r.coin()) hs.push_back("Bearer " + std::string(Base64::Encode(String(u.name + ":" + u.pw)).GetData()));
+		if (r.coin()) hs.push_back("Basic  " + std::string(Base64::Encode(String(u.name + ":" + u.pw)).GetData()));
+		if (r.coin()) hs.push_back(basic(u.name + ":" + u.pw) + "=");
+		if (r.coin()) hs.push_back("Basic" + std::string(Base64::Encode(String(u.name + ":" + u.pw)).GetData()));
+		if (r.coin()) hs.push_back(u.name + ":" + u.pw);
+	}
+	hs.push_back(""); hs.push_back("Basic"); hs.push_back("Basic "); hs.push_back("Basic !!!"); hs.push_back("Basic Og=="); hs.push_back(" ");
+	hs.push_back(basic(":")); hs.push_back(basic("::"));
+	for (auto& h : hs) Run("B " + Hex(h));
+	for (auto c : { "", "cn1", "agent.example", "CN1", "cn", "cn1 " }) Run("N " + Hex(c));
 }
 
 static void GenMatchExhaustive(int maxLen)
@@ -1189,7 +1424,8 @@ int main(int argc, char **argv)
 		GenMatchExhaustive(thorough ? 4 : 3);
 		GenMatchRandom(rng, thorough ? 200000 : 20000);
 		int n = thorough ? 200000 : 20000;
-		for (int i = 0; i < n; i++) GenCase(rng);
+		for (int i = 0; i < (thorough ? 20000 : 2000); i++) GenAuthCase(rng);
+		for (int i = 0; i < n; i++) { if (rng.below(6) == 0) GenJoinCase(rng); else GenCase(rng); }
 	} else if (mode == "ops") {
 		if (argc < 3) return 2;
 		FILE *f = fopen(argv[2], "r");
